@@ -34,6 +34,17 @@ CLAIMED = {
             'SKIP, key_paths, apply(map_fn), copy_and_update. Pure data-structure laws with an executable reference: exploration.',
             'reference model in vlib/oracles/tree_ref.py; root is a container; reserved words are not used as dict keys.',
             '§3 C18'),
+    'C07': ('exploration',
+            'Hypothesis-generated (metric, configuration, batch) cases against an independent plain-Python reference; alias/range/function-API metamorphic checks',
+            'For each of 23 shipped accumulators (rolling stats, histogram, counter, samplers, Tjur R2, Pearson r, SPD, mean states, '
+            'n-gram and pattern frequency, confusion-matrix families incl. top-k and samplewise, calibration histogram, thresholded '
+            'and top-k retrieval) random configurations and batches are evaluated through every API they expose and compared with '
+            'textbook definitions computed with math.fsum; all 29 confusion-matrix and 17 retrieval metrics are swept for alias '
+            'equality, ranges and agreement of the one-shot function API; signal functions are compared with their definitions. '
+            'A reference oracle exists, so exploration with an independent oracle is the right level.',
+            'oracle self-test gate reproduces literals pinned by upstream tests before any case runs; values on an exactly '
+            'representable grid; documented zero-denominator/NaN conventions; open finding F-C07-topk-truncation is steered around and reported.',
+            '§3 C07'),
 }
 
 PENDING_REASON = 'check not built yet in this session (work in progress; see DESIGN.md §9 build order) - not claimed until its check exists'
